@@ -697,6 +697,12 @@ func streamDebfuzz(g *core.G) {
 			if r.Bool() {
 				d.Name = r.Pick([]string{"control.tar.zz", "data.tar.zz", "control.x", "data.", "control.tar.gz", "data.tar", "control.new.tar", "data.new.tar", "control.sig", "data.list", "control.old.tar.gz"})
 			}
+			if r.Chance(1, 5) {
+				// a member name built around a word the deb package itself spells out
+				if t := r.LitToken("deb", r.Pick([]string{"x", "tar", ".tar.gz", "1"}), " /\n"); t != "" && len(t) <= 16 {
+					d.Name = t
+				}
+			}
 			pos := r.Intn(len(ms) + 1)
 			ms = append(ms[:pos], append([]arMember{d}, ms[pos:]...)...)
 			data = buildAr(ms)
